@@ -1,8 +1,11 @@
 #!/bin/bash
-# usage: seedeval_round.sh <worktree-root> <mutA> <mutB> ...   (evaluates every property dir under the root)
+# usage: [OWN=1] seedeval_round.sh <worktree-root> <mutA> <mutB> ...   (evaluates every property dir under the root;
+# OWN=1 runs only the check of the property the change was written against)
 ROOT="$1"; shift
 for p in $(ls "$ROOT"); do
   for m in "$@"; do
-    [ -d "$ROOT/$p/out/$m" ] && /verif/tools/seedeval.sh "$ROOT/$p" "$ROOT/$p/out/$m" "$p-$m"
+    if [ -d "$ROOT/$p/out/$m" ]; then
+      if [ -n "$OWN" ]; then CHECKS="$p" /verif/tools/seedeval.sh "$ROOT/$p" "$ROOT/$p/out/$m" "$p-$m"; else /verif/tools/seedeval.sh "$ROOT/$p" "$ROOT/$p/out/$m" "$p-$m"; fi
+    fi
   done
 done
